@@ -183,14 +183,17 @@ func (c *NestCfg) rule() error {
 // the file keys are produced with Params.FileFieldNameEncoder), a slice, a
 // float and a nested struct.
 
+// (Retries and MaxIdle were "renamed": the old names stay usable through
+// dialsalias, written in Go camel case as ez's default DialsTagNameDecoder,
+// caseconversion.DecodeGoCamelCase, expects.)
 type PlainDB struct {
 	Login   string
-	Retries int
+	Retries int `dialsalias:"RetryBudget"`
 }
 
 type PlainCfg struct {
 	ConfigFile string
-	MaxIdle    int
+	MaxIdle    int `dialsalias:"IdleLimit"`
 	Grace      time.Duration
 	Peers      []string
 	DB         *PlainDB // non-nil in the defaults
